@@ -59,7 +59,7 @@ def case_strategy():
             if len(a[1]) == 2 and ["cls", "NoneType"] in a[1]:
                 options += ["optional", "optional"]
         if a[0] == "obj":
-            options += ["any", "missing", "any", "missing"]
+            options += ["any", "missing", "any", "missing", "annotated-any", "string-annotated-any"]
         if a[0] == "lit" and len(a[1]) >= 2:
             options += ["lit-permute"] * 3
         if a[0] == "listof":
@@ -103,6 +103,10 @@ def variant(spec):
         sp = {"union": "optional"}
     elif how == "any":
         sp = {"obj": "any"}
+    elif how == "annotated-any":
+        sp = {"obj": "any", "wrap": "annotated"}
+    elif how == "string-annotated-any":
+        sp = {"obj": "any", "wrap": "string", "annotated": True}
     elif how == "missing":
         sp = {"wrap": "missing"}
     elif how == "lit-permute":
